@@ -137,7 +137,13 @@ inline std::string tmpdir() {
 
 static const double A1 = 6378388.0, F1 = 1 / 297.0;        // International 1924 (constructed objects)
 static const double A2 = 6.4e6, F2 = -1 / 150.0;           // prolate
-static const double A3 = 6.4e6, F3 = 0.5;                  // very eccentric: GeodesicExact then uses a long DST (N > 16) for the area
+static const double A3 = 6.4e6;
+// Objects whose ellipsoid depends on a variant number (C14 sets it from the workload seed before objs() is first used;
+// everywhere else it stays 0): the flattening decides internal table sizes (GeodesicExact's DST length, hence the FFT
+// factorisation) and per-ellipsoid constants, so a fixed set of objects would leave most of those paths untouched.
+inline unsigned long long& variant() { static unsigned long long v = 0; return v; }
+inline double F3() { static const double t[] = {0.5, 0.1, -0.1, 0.7, 0.95, 0.3, -0.5, 0.02, 1 / 3.0, -0.47, 0.2, -0.9}; return t[variant() % 12]; }   // GeodesicExact(f = 0.5 ...)
+inline double F4() { static const double t[] = {1 / 40.0, 0.05, 0.02, 0.08}; return t[(variant() / 12) % 4]; }                                  // second TransverseMercatorExact
 
 struct Harm {   // synthetic coefficient sets (owned here: SphericalHarmonic keeps iterators into them)
   std::vector<double> C, S, C1, S1, C2, S2;
@@ -160,7 +166,7 @@ struct Objs {
   GeodesicExact ge1, ge2, ge3; // oblate, prolate, very eccentric (f = 0.5)
   GeodesicLine l1, lw; GeodesicLineExact le1;
   Rhumb r1, r1x; RhumbLine rl1, rlw;
-  TransverseMercator tm1; TransverseMercatorExact tme1, tme1x;
+  TransverseMercator tm1; TransverseMercatorExact tme1, tme1x, tme2;
   PolarStereographic ps1;
   LambertConformalConic lcc1, lcc2;
   AlbersEqualArea alb1, alb2;
@@ -178,10 +184,10 @@ struct Objs {
   double dstF[16];
   Objs()
       : dir(tmpdir()), gw(Constants::WGS84_a(), Constants::WGS84_f()), rw(Constants::WGS84_a(), Constants::WGS84_f()), gcw(Constants::WGS84_a(), Constants::WGS84_f()),
-        g1(A1, F1), g1x(A1, F1, true), ge1(A1, F1), ge2(A2, F2), ge3(A3, F3),
+        g1(A1, F1), g1x(A1, F1, true), ge1(A1, F1), ge2(A2, F2), ge3(A3, F3()),
         l1(g1, 33.5, -71.25, 41.75), lw(gw, -12.25, 100.5, -130.0), le1(ge1, 33.5, -71.25, 41.75),
         r1(A1, F1, false), r1x(A1, F1, true), rl1(r1.Line(33.5, -71.25, 41.75)), rlw(rw.Line(-12.25, 100.5, -130.0)),
-        tm1(A1, F1, 0.9996), tme1(A1, F1, 0.9996, false), tme1x(A1, F1, 0.9996, true), ps1(A1, F1, 0.994),
+        tm1(A1, F1, 0.9996), tme1(A1, F1, 0.9996, false), tme1x(A1, F1, 0.9996, true), tme2(A3, F4(), 1.0, false), ps1(A1, F1, 0.994),
         lcc1(A1, F1, 40.0, 60.0, 1.0), lcc2(A1, F1, -35.0, 0.9999), alb1(A1, F1, 40.0, 60.0, 1.0), alb2(A1, F1, -40.0, -60.0, 1.0),
         gn(g1), aeq(g1), cs(33.5, -71.25, g1), gc1(A1, F1), lc1(33.5, -71.25, 120.0, gc1), el1(A1, F1), aux1(A1, F1),
         daux1(A1, F1), ef1(0.3, 0.2), ef2(-2.5, 0.7), ng1(A1, 3.986004418e14, 7.292115e-5, F1, true),
